@@ -169,3 +169,70 @@ func VH_C15_v3_history() {
 	vrt.Observe("temporal score", em2.TemporalMetrics().Score())
 	vrt.Observe("base score", em2.BaseMetrics().Score())
 }
+
+// C09/C14/C15: a decoder object that is used for a second Decode. Whatever the first vector was, IF the
+// second Decode on the same object accepts, the object it returns reads (at all three levels) like a
+// fresh decode of the second vector. (On a tree whose decoders reject every reuse the assertions are
+// unreachable, which is fine: they are conditional on acceptance.)
+func VH_C15_v3_reuse() {
+	vec1, _, _, _, _, _, _, _, _, _ := pickBaseVector()
+	tsuf1, _, _, _ := pickTemporal()
+	esuf1, _, _, _, _, _, _, _, _, _, _, _ := pickEnv()
+	vec2, _, _, _, _, _, _, _, _, _ := pickBaseVector()
+	tsuf2, _, _, _ := pickTemporal()
+	esuf2, _, _, _, _, _, _, _, _, _, _, _ := pickEnv()
+	junk := vrt.StringNo("junk", "/")
+	// the second vector may omit its temporal and / or environmental metrics
+	second2 := vec2
+	if vrt.Pick("tgroup2", "absent", "present") == "present" {
+		second2 = second2 + tsuf2
+	}
+	second3 := second2
+	if vrt.Pick("egroup2", "absent", "present") == "present" {
+		second3 = second3 + esuf2
+	}
+	first := vec1 + tsuf1 + esuf1
+	if vrt.Bool("firstFails") {
+		first = vec1 + "/" + junk
+	}
+	lvl := vrt.Pick("level", "base", "temporal", "environmental")
+	switch lvl {
+	case "base":
+		d := NewBase()
+		_, _ = d.Decode(vec1)
+		got, err := d.Decode(vec2)
+		if err == nil {
+			fresh, ferr := NewBase().Decode(vec2)
+			ge, _ := got.Encode()
+			fe, _ := fresh.Encode()
+			vrt.Assert(ferr == nil && ge == fe && got.Ver == fresh.Ver, "IF: a base decoder that accepts a second vector returns what a fresh decoder returns")
+		}
+	case "temporal":
+		d := NewTemporal()
+		_, _ = d.Decode(vec1 + tsuf1)
+		got, err := d.Decode(second2)
+		if err == nil {
+			fresh, ferr := NewTemporal().Decode(second2)
+			ge, _ := got.Encode()
+			fe, _ := fresh.Encode()
+			gb, _ := got.BaseMetrics().Encode()
+			fb, _ := fresh.BaseMetrics().Encode()
+			vrt.Assert(ferr == nil && ge == fe && gb == fb, "IF: a temporal decoder that accepts a second vector returns what a fresh decoder returns")
+		}
+	default:
+		d := NewEnvironmental()
+		_, _ = d.Decode(first)
+		got, err := d.Decode(second3)
+		if err == nil {
+			fresh, ferr := NewEnvironmental().Decode(second3)
+			ge, _ := got.Encode()
+			fe, _ := fresh.Encode()
+			gt, _ := got.TemporalMetrics().Encode()
+			ft, _ := fresh.TemporalMetrics().Encode()
+			gb, _ := got.BaseMetrics().Encode()
+			fb, _ := fresh.BaseMetrics().Encode()
+			vrt.Assert(ferr == nil && ge == fe && gt == ft && gb == fb, "IF: an environmental decoder that accepts a second vector returns what a fresh decoder returns (all three views)")
+		}
+	}
+	vrt.Reach("reuse harness runs to its end")
+}
